@@ -32,6 +32,7 @@ PROPS = {
              "a-priori rounding bound; explicit operator columns probed with unit vectors",
              "Give, take, cached and uncached residuals on every level are compared elementwise with f - A_ref u, coarse caches "
              "with a fresh evaluation, and explicit rows (Dirichlet identity, 9/7-point pattern and values) with the model.",
+             quick_runs=800,
              expect_probes=["coarse_cache_compared", "columns_probed", "all_radial_split", "cache_00", "cache_11"]),
     "C04": P([("directsolver", "fast", 0.75), ("directsolver", "trace", 0.25)],
              "seeded (problem, grid from nr=5,ntheta=4 up to ~5000 nodes, boundary mode, thread count 2..>lines, right-hand "
@@ -40,7 +41,7 @@ PROPS = {
              "and in the other strategy's real residual; cross-schedule bit equality",
              "The solution returned by both direct solvers is fed to the reference operator (normwise backward error bound), "
              "to the other strategy's residual, and compared between strategies and between schedules.",
-             quick_runs=250, expect_probes=["T_gt_lines", "minimal_grid", "dirbc", "across_origin"]),
+             quick_runs=600, expect_probes=["T_gt_lines", "minimal_grid", "dirbc", "across_origin"]),
     "C05": P([("spd", "fast", 0.8), ("spd", "trace", 0.2)],
              "seeded vector pairs vanishing on Dirichlet nodes on seeded grids (non-uniform angles, non-orthogonal mappings); "
              "A x := -(residual with zero rhs) computed by the real operators under the simulator",
@@ -48,7 +49,7 @@ PROPS = {
              "reference line blocks",
              "<Ax,y> = <x,Ay> and <Ax,x> > 0 for the real give and take operators; the line blocks of the reference operator "
              "are Cholesky-factorisable (the blocks the smoothers really factorise are private: covered indirectly by C06).",
-             quick_runs=500, expect_probes=["line_blocks_checked"]),
+             quick_runs=1500, expect_probes=["line_blocks_checked"]),
     "C06": P([("smoother", "fast", 0.7), ("smoother", "trace", 0.3)],
              "seeded smoothing-level grids (ntheta%4==0, both parities of the circle count via the splitting radius), "
              "sequences of 1..4 sweeps (the first sweep factorises lazily inside the parallel region), both strategies, "
@@ -57,6 +58,7 @@ PROPS = {
              "against the reference operator",
              "Per sweep: fixed point at the exact discrete solution, residual zero on the last colour, Dirichlet data set, give "
              "== take, energy norm of the error non-increasing, k-th sweep of a used object == first sweep of a fresh object.",
+             quick_runs=800,
              expect_probes=["fixed_point_checked", "energy_checked", "history_compared", "circles_parity_0", "circles_parity_1"]),
     "C07": P([("exsmoother", "fast", 0.7), ("exsmoother", "trace", 0.3)],
              "as C06 for the extrapolated smoothers on finest-level grids (>=3 circles, >=3 radial nodes)",
@@ -64,6 +66,7 @@ PROPS = {
              "fine-only nodes of the last colour, fixed point, give == take, history",
              "Coarse nodes are compared as bytes (a NaN or -0.0 cannot hide a rewrite); the other clauses against the reference "
              "operator with the a-priori bound.",
+             quick_runs=800,
              expect_probes=["coarse_nodes_compared", "fixed_point_checked", "history_compared"]),
     "C08": P([("transfer", "fast", 0.8), ("transfer", "trace", 0.2)],
              "seeded fine/coarse pairs from coarsening chains (midpoint-nested and arbitrary radii/angles, any split, below and "
@@ -72,7 +75,7 @@ PROPS = {
              "(bitwise), convexity, linear exactness",
              "All nine Interpolation::apply* operators run under the simulator on both sides of their parallel threshold; "
              "algebraic identities decide. Linear exactness fails on non-midpoint pairs: known finding F6.",
-             quick_runs=400, expect_probes=["midpoint_pair", "nonmidpoint_pair", "above_parallel_threshold", "explicit_weights_probed"]),
+             quick_runs=1500, expect_probes=["midpoint_pair", "nonmidpoint_pair", "above_parallel_threshold", "explicit_weights_probed"]),
     "C11": P([("regions", "trace", 0.8), ("solve", "trace", 0.2)],
              "one scenario per parallel region of the library (residual, smoothers, extrapolated smoothers, direct-solver "
              "assembly, level caches, nine transfers, vector kernels) on seeded grid-shape classes (circles mod 2,3,4; ntheta "
@@ -83,7 +86,7 @@ PROPS = {
              "simulator is the OpenMP runtime) + cross-schedule bit equality of outputs",
              "The HB monitor decides race freedom exactly for the synchronisation performed at each explored (shape, team "
              "size); T >= trip count compares every pair of iterations of a phase. Shapes and team sizes are sampled.",
-             quick_runs=1200, quick_budget_s=110, thorough_budget_s=1800,
+             quick_runs=1000, quick_budget_s=90, thorough_budget_s=1800,
              expect_probes=["T_ge_trip_count", "above_parallel_threshold", "monitored", "op:smoother_give", "op:exsmoother_take",
                             "op:directsolver_give", "op:residual_give", "op:levelcache_coarse", "op:fmg_interpolation",
                             "op:vector_kernels"]),
@@ -99,10 +102,23 @@ PROPS = {
              expect_probes=["above_parallel_threshold", "below_parallel_threshold", "compared_with_T1", "multi_thread_region_executed"]),
 }
 
+PROPS["C13"] = P([("reuse", "fast", 1.0)],
+    "seeded operation histories (length 2..8) on ONE GMGPolar object: option changes (solve-time ones without, structural ones "
+    "with a new setup), setup, solve, solve-without-setup, rejected setup (take without caches), setup failing by an injected "
+    "bad_alloc, the divideBy2++ refinement loop of convergence_order; every extrapolation mode, FMG on/off, both strategies; "
+    "non-trivial = at least two solves compared; distinct = distinct (history length, options) signature",
+    "deterministic simulation of call histories with allocation-failure faults; refinement against a freshly constructed "
+    "solver under the same canonical schedule (bitwise)",
+    "After every solve of a history: solution (bitwise), iteration count, reduction factor and error figures equal those of a "
+    "fresh object with the same cumulative options, both run under the canonical schedule with identical team sizes, so any "
+    "difference is due to history alone.",
+    quick_runs=160, quick_budget_s=110, thorough_budget_s=1800,
+    expect_probes=["solve_without_setup", "second_or_later_solve", "rejected_setup", "fault:alloc_fail"])
+
 NOT_APPLICABLE = {
     "C16": "pure sequential function (A,b)->x: SparseLUSolver factorises in its constructor, solveInPlace is const; no schedule, clock, I/O, fault or history for a simulator to own (DESIGN.md 9.3)",
     "C17": "PolarGrid is an immutable value object built sequentially; every query is a pure function of its arrays (DESIGN.md 9.3)",
     "C19": "closed-form const functions of (r,theta); no state, no parallel region, no I/O (DESIGN.md 9.3)",
 }
 PENDING = {k: "check under construction at this commit (see DESIGN.md section 6); not claimed yet" for k in
-           ["C02", "C09", "C10", "C13", "C14", "C15", "C18", "C20"]}
+           ["C02", "C09", "C10", "C14", "C15", "C18", "C20"]}
